@@ -45,6 +45,11 @@ CLAIMED = {
   text='Decides structural clauses: every one of the 32 token-driven parser loops and the character-level scanner loops exits at end of input; nullable results are tested before dereference (incl. through dereferencing callees); nothing is read after release; exit statuses are the constants 1/2 and main returns 0 only behind fflush + terminal ferror test; input read errors are consulted; NULL never reaches %s; the initializer object stack, zero()\'s store table (all alignments), the AVL ancestor stack and LEN()-guarded tables stay in bounds; literal scanners reject NUL bytes. Full memory safety, recursion depth and unreachability of every assert are NOT decided.',
   note='Trusts clang 14 front end, lib/cfg.py / lib/flow.py / lib/eofccp.py (the token-API model: next() identity at EOF is itself checked on scankind), reviewed exception tables NULL_EXCEPTIONS / INDEX_EXCEPTIONS in props/c19.py (one line of reason each).',
   design='5/C19'),
+ 'C03': dict(
+  technique='abstract interpretation of the block-building primitives (mkblock/funclabel/funcjmp/funcjnz/funcinst/funcexpr) on abstract block objects with graph invariants checked on the result; E-AI table of dataitem; AST field-usage and stream-usage rules; CFG dominator rule for the exit discipline',
+  text='Decides structural clauses: terminator-once for all four terminators and funcinst after a terminator; for 16 shapes of nested ?:/&&/|| (incl. arms ending in a no-return call) every phi source is a real predecessor and no jump targets an unplaced block; string data items emit exactly size bytes (units + zero fill) for all width/length/size combinations without reading outside the literal; no bookkeeping field is write-only (label definedness); diagnostics only on stderr and IL only on stdout; status 0 only behind fflush + terminal ferror. Class agreement and def-before-use of temporaries in arbitrary functions are NOT decided.',
+  note='Trusts clang 14 front end, lib/eai.py, the array/alloc models in props/c03.py. One known finding (phi after a no-return arm of ?:).',
+  design='5/C03'),
  'C01': dict(
   technique='abstract interpretation (partial evaluation of the lowering functions over the static type/operator descriptor domain) + AST table extraction vs C11/QBE oracle tables',
   text='Decides structural clauses only: the instruction-selection, conversion, load/store, truthiness and bit-field shift tables that every compiled program is lowered through are extracted from the current source by an abstract interpreter and compared exhaustively (over the finite descriptor domain) with oracle tables written from C11 and the QBE manual; sibling switches are checked for exhaustiveness. Semantic equivalence of emitted IL for arbitrary programs is NOT decided.',
